@@ -7,7 +7,7 @@ import math
 
 from .interp import (MODELS, FALLBACK, Unsupported, Panic, NONE, UNIT, some, deref_all, _iter_items, _pred, _slice, _ok,
                      MapV, StrV)
-from .values import BV, Agg, RefV, Cell, bv_bool
+from .values import BV, Agg, RefV, Cell, Opaque, bv_bool
 
 INTS = {'u8': (8, False), 'u16': (16, False), 'u32': (32, False), 'u64': (64, False), 'u128': (128, False), 'usize': (64, False),
         'i8': (8, True), 'i16': (16, True), 'i32': (32, True), 'i64': (64, True), 'i128': (128, True), 'isize': (64, True)}
@@ -1028,6 +1028,8 @@ def _prim_convert(I, v, ty, t):
     if ty in ('f64', 'f32'):
         return float(v.sval() if getattr(v, 'signed', False) else I.conc(v)) if isinstance(v, BV) else float(v)
     if ty == 'char':
+        if isinstance(v, Opaque):
+            return v         # an abstract character (a rule's stand-in for decode_base's result): char::from(u8) keeps the code, like `as char`
         return BV(32, I.conc(v))
     raise Unsupported('primitive conversion to %r' % (ty,))
 
